@@ -466,7 +466,7 @@ func runC13(c *vf.Ctx) {
 			execC13(c, d, c13Case{Kind: "keygen", Mode: "oracle", Seed: seed, Tag: "random"})
 			execC13(c, d, c13Case{Kind: "sign", Mode: "oracle", Priv: priv, Msg: msg, Tag: fmt.Sprintf("len%%8=%d", mlen%8)})
 			sig := c13RefSign(seed, msg, nil)
-			if mlen%16 == w%16 || mlen < 4 {
+			if (mlen/16)%16 == w%16 || mlen < 4 {
 				for _, cs := range c13Mutations(r, priv[57:], msg, sig, "oracle") {
 					execC13(c, d, cs)
 				}
